@@ -199,7 +199,7 @@ class Facts:
         return self._tpl
 
 
-def _inline_quote_vars(item):
+def _inline_quote_vars(item, file_fns=None):
     """`let part = quote! { .. }; quote! { .. #part .. }` is the template with the part spliced in.  For every fn: quote! fragments bound
     once to a plain local are substituted (textually, recursively) into the templates that interpolate them, so that the template rules
     see the same token text whether a maintainer wrote the template in one piece or assembled it from named pieces."""
@@ -246,6 +246,42 @@ def _inline_quote_vars(item):
                 lhs = n.get('l') or {}
                 if lhs.get('k') == 'path':
                     count[lhs.get('text')] = count.get(lhs.get('text'), 0) + 2
+        # `let call = call_statement(crate_path, Some(quote! { .set_more(true) }));` where the helper of the same file is nothing but one
+        # template over its parameters: the binding is that template with the arguments put in place of the parameters
+        for n in nodes(fn['body']):
+            if n.get('k') == 'let':
+                pat = (n.get('pat') or '').replace('mut ', '').strip()
+                init = n.get('init') or {}
+                if _re.fullmatch(r'[A-Za-z_]\w*', pat or '') and init.get('k') == 'call' and isinstance(init.get('func'), str) and pat not in binds:
+                    h = (file_fns or {}).get(init['func'].split('::')[-1].strip())
+                    if h is None or h is fn or len(h.get('body') or []) != 1:
+                        continue
+                    hm = h['body'][0]
+                    hm = hm.get('expr') if isinstance(hm, dict) and hm.get('k') == 'expr' else hm
+                    if not isinstance(hm, dict) or hm.get('k') != 'macro' or hm.get('name') != 'quote' or hm.get('tokens') is None:
+                        continue
+                    params = [_re.sub(r'^(mut\s+)?', '', (q.split(':')[0]).strip()) for q in h.get('params') or []]
+                    args = init.get('args') or []
+                    if len(params) != len(args):
+                        continue
+                    toks = hm.get('tokens_written') or hm['tokens']
+                    sub = {}
+                    for q, a in zip(params, args):
+                        a0 = a
+                        while isinstance(a0, dict) and a0.get('k') in ('ref', 'paren') and isinstance(a0.get('expr'), dict):
+                            a0 = a0['expr']
+                        if isinstance(a0, dict) and a0.get('k') == 'call' and a0.get('func') == 'Some' and len(a0.get('args') or []) == 1:
+                            a0 = a0['args'][0]
+                        if isinstance(a0, dict) and a0.get('k') == 'macro' and a0.get('name') == 'quote' and a0.get('tokens') is not None:
+                            sub[q] = ' ' + a0['tokens'] + ' '
+                        elif isinstance(a0, dict) and a0.get('k') == 'path' and (a0.get('text') or '').strip() == 'None':
+                            sub[q] = ' '
+                        elif isinstance(a0, dict) and a0.get('k') == 'path' and _re.fullmatch(r'[A-Za-z_]\w*', (a0.get('text') or '').strip()):
+                            sub[q] = '# ' + a0['text'].strip()
+                        elif isinstance(a0, dict) and a0.get('k') == 'mcall' and a0.get('method') == 'clone' and (a0.get('recv') or {}).get('k') == 'path':
+                            sub[q] = '# ' + a0['recv']['text'].strip()
+                    toks2 = _re.sub(r'#\s*([A-Za-z_]\w*)\b(?!\s*\()', lambda m: sub.get(m.group(1), m.group(0)), toks)
+                    binds[pat] = {'k': 'macro', 'name': 'quote', 'tokens': toks2, 'line': n.get('line'), 'from_helper': h.get('name')}
         binds = {k: v for k, v in binds.items() if count.get(k) == 1}
         if not binds:
             return
@@ -256,7 +292,8 @@ def _inline_quote_vars(item):
             def rep(m):
                 name = m.group(1)
                 if name in binds and name not in seen:
-                    inner = binds[name]['tokens']
+                    binds[name]['spliced'] = True       # a fragment: judged as part of the templates it goes into
+                    inner = binds[name].get('tokens_written') or binds[name]['tokens']
                     if binds[name].get('name') == 'quote_spanned' and '=>' in inner:
                         inner = inner.split('=>', 1)[1]
                     return ' ' + expand(inner, depth + 1, seen | {name}) + ' '
@@ -284,8 +321,12 @@ class Tpl:
         if not os.environ.get('ZL_NO_QUOTE_INLINE'):
             for fname, f in self.files.items():
                 if 'zlink-macros/' in fname or 'zlink-codegen/' in fname:
+                    file_fns = {}
                     for it in f['items']:
-                        _inline_quote_vars(it)
+                        if it.get('k') == 'fn':
+                            file_fns.setdefault(it['name'], it)
+                    for it in f['items']:
+                        _inline_quote_vars(it, file_fns)
 
     def items(self, file_sub=None, kind=None):
         for fn, f in self.files.items():
